@@ -53,22 +53,31 @@ class C20(Check):
     extracted = ['coq/Args/model.mli', 'coq/Args/model.ml', 'ocaml/zconv.ml', 'ocaml/args_driver.ml']
     harness_sources = ['harness/args.cpp']
     per_case_timeout = 20
-    level_text = ('Theorems in Coq about an executable model of Process.cpp (POSIX paths): for every option table and every '
-                  'argument vector the cursor machine of Process::Arguments (nextChar/read, every string read through a bounded '
-                  'peek) yields exactly the sequence of an independently written getopt_long reference and never reads outside '
-                  'a string; the command-line splitter terminates on every input and equals a reference word splitter (with a '
-                  'round-trip theorem for quoted words); the argv/environment handed to exec by every start/open overload is '
-                  'exactly the given one. The model is tied to the code by running the extracted model, the extracted reference '
-                  'and the ASan/UBSan build of the working tree on the same inputs (results and the cursor fields compared), '
-                  'exhaustively over small alphabets.')
-    level_note = ('partial: exec, pipes, exit status, end-of-file and environment passing are OS behaviour - they are exercised by the '
-                  'correspondence only (a helper child echoes argv/environ, copies stdin to stdout/stderr and exits with a scripted '
-                  'code; expected exit code and stream contents are computed by the driver, not in Coq). The theorems cover the '
-                  'parsing and preparation logic of the model; the tie to the code is differential. The model mirrors the code '
-                  'after the repairs in fixes/C20. Map iteration order is taken as given (C01). splitCommandLine is a file-local '
-                  'function: the harness compiles Process.cpp into its own translation unit to call it directly, and also drives '
-                  'it through open/start(commandLine). Trusted: Coq kernel, the getopt/word-splitting reference (ArgsSpec.v, '
-                  'cross-checked against glibc getopt_long as a search oracle), extraction + OCaml driver, harness, helper child.')
+    level_text = ('18 Coq theorems (no axioms) about an executable model of Process.cpp (POSIX paths) that mirrors the code decision '
+                  'by decision with every string access going through a bounds-checked peek/advance. (A) Process::Arguments: for EVERY '
+                  'option table and EVERY argument vector of C strings, iterating read() yields exactly the item sequence of an '
+                  'independently written getopt_long reference (clusters, attached/detached/optional values, long options with = or '
+                  'separate value, --, lone -, unknown ?, missing :) - proved as a refinement: each read() on a reachable cursor performs '
+                  'one reference step, stays inside [string, terminator], strictly decreases the count of unread characters, and false is '
+                  'final; so the loop ends within weight+1 calls. (B) splitCommandLine equals the reference word splitter on every C '
+                  'string, terminates with fuel length+1 and in bounds on EVERY byte string (covers the loop that used to hang), and '
+                  'split(quote words) = words for all words not ending in a backslash. (C) the argv/env arrays handed to execvpe by '
+                  'each start/open overload are exactly executable + argument vector + environment given. The model is tied to the code '
+                  'by running the extracted model, the extracted reference and the ASan/UBSan build of the working tree on the same '
+                  'inputs (results and the cursor fields idx/pos/inOpt/skipOpt compared), exhaustively over small alphabets.')
+    level_note = ('partial: exec itself, pipes, join()/exit status, end-of-file on redirected output, stdin bytes arriving intact and the '
+                  'environment as seen by the child are OS behaviour - validated by correspondence only (a helper child echoes argv/environ, '
+                  'copies stdin to stdout/stderr and exits with a scripted code; 8 redirection combinations x 4 launch forms, payloads '
+                  '0..64 KiB+1 (1 MiB in thorough) around the pipe capacity, exit codes 0..255; expected exit code and stream contents '
+                  'are computed by the driver, not in Coq). kill(), the environment setters/getters and daemonize are not modelled. '
+                  'Theorems are about the model; the tie to the code is differential. Hypotheses of the theorems: argument strings are '
+                  'bytes 1..255 and option names contain no NUL (what a C string is); the round trip excludes words ending in a backslash '
+                  '(the reference quoting would escape its own closing quote - shown by an Example). The model mirrors the code after the '
+                  'repairs in fixes/C20 (all committed to the repository). Map iteration order is taken as given (C01). '
+                  'splitCommandLine is a file-local function: the harness compiles Process.cpp into its own translation unit to call it '
+                  'directly, and also drives it through open/start(commandLine). Trusted: Coq kernel, the getopt/word-splitting reference '
+                  '(ArgsSpec.v, cross-checked against glibc getopt_long as a search oracle, not as a theorem), extraction + OCaml driver, '
+                  'harness, helper child.')
     technique = 'Coq proof about an executable model + differential correspondence (extracted model/spec vs ASan/UBSan build)'
     rule = ('cases = (option table, argument vector) parsed to the end, one command line split, or one child launch; argument '
             'vectors are exhaustive over {- a b c = x} (quick: 1 string of length <= 4, 2 of length <= 2, 3 from a token set; '
